@@ -5,6 +5,7 @@ import (
 	"github.com/coocood/freecache"
 	"os"
 	"sort"
+	"strings"
 	"sync"
 	"time"
 
@@ -161,6 +162,45 @@ func gossipCmd(out *cq.Out, seed uint64, tier string) {
 		}
 		out.Sample(map[string]interface{}{"case": ci, "peers": npeers, "roles": nroles, "ops": hist})
 		cases = append(cases, cq.List(ops))
+	}
+	// membership notifications as memberlist delivers them (join / leave / update of named peers with a role): after each
+	// one the agent's view is exactly the set of peers that joined (or were updated) and have not left since
+	{
+		roles := []string{"auditor", "monitor", "publisher"}
+		var evs []gossip.VMemberEvent
+		for i := 0; i < 120; i++ {
+			p := rng.Intn(7)
+			kind := []int{0, 0, 1, 2}[rng.Intn(4)]
+			evs = append(evs, gossip.VMemberEvent{Kind: kind, Name: fmt.Sprintf("n%d", p), Role: roles[p%3], Port: uint16(7000 + p)})
+		}
+		views := gossip.VDelegateView(evs, roles)
+		present := map[string]bool{}
+		for i, e := range evs {
+			id := e.Role + "/" + e.Name
+			if e.Kind == 1 {
+				delete(present, id)
+			} else {
+				present[id] = true
+			}
+			var want []string
+			for _, r := range roles {
+				var ns []string
+				for k := range present {
+					if strings.HasPrefix(k, r+"/") {
+						ns = append(ns, k)
+					}
+				}
+				sort.Strings(ns)
+				want = append(want, ns...)
+			}
+			if strings.Join(views[i], ",") != strings.Join(want, ",") {
+				out.Violate("C18:view-inconsistent-after-membership-event", fmt.Sprintf("after %d membership notifications (the last: kind %d for %s) the agent lists [%s]; the peers that joined and have not left are [%s]", i+1, e.Kind, id, strings.Join(views[i], ","), strings.Join(want, ",")),
+					map[string]interface{}{"seed": seed, "events": i + 1})
+				break
+			}
+			out.Case(fmt.Sprintf("member:%d:%d", e.Kind, len(present)), true)
+		}
+		out.Count("membership_notifications", len(evs))
 	}
 	// a batch that comes back late: longer after its first arrival than any timeout of the agent's configuration
 	// (gossip redelivers through other peers at arbitrary times); it must still be recognised
